@@ -6,6 +6,7 @@ mod rcdirected;
 mod rcrun;
 mod rcworld;
 mod sched;
+mod stress;
 mod vectors;
 
 use std::io::Write;
@@ -36,6 +37,19 @@ fn write_out(path: &str, lines: &[String]) {
 }
 
 fn main() {
+    real_main();
+    // skip destructors of kept-alive collectors, queues and lists: their teardown is not under test
+    use std::io::Write as _;
+    let _ = std::io::stdout().flush();
+    unsafe { libc_exit(0) };
+}
+
+extern "C" {
+    #[link_name = "_exit"]
+    fn libc_exit(code: i32) -> !;
+}
+
+fn real_main() {
     let args: Vec<String> = std::env::args().collect();
     let mode = args.get(1).map(|s| s.as_str()).unwrap_or("help");
     match mode {
@@ -207,6 +221,19 @@ fn main() {
             );
             ctl.quit();
         }
+        "stress" => {
+            let kind = sarg(&args, "--kind", "c07");
+            let tier = sarg(&args, "--tier", "quick");
+            let out = sarg(&args, "--out", "stress.ndjson");
+            let exe = std::env::current_exe().unwrap().to_string_lossy().to_string();
+            let rows = stress::run_parent(&kind, &tier, &exe);
+            write_out(&out, &rows);
+            println!("{{\"rows\":{},\"file\":{:?},\"kind\":{:?}}}", rows.len(), out, kind);
+        }
+        "child-c07" => stress::child_c07(&args[2], args[3].parse().unwrap(), args[4].parse().unwrap()),
+        "child-c06" => stress::child_c06(&args[2], args[3].parse().unwrap(), args[4].parse().unwrap(), args[5].parse().unwrap(), args[6].parse().unwrap()),
+        "child-c20" => stress::child_c20(args[2].parse().unwrap(), args[3].parse().unwrap(), args[4].parse().unwrap()),
+        "child-shape" => stress::child_shape(args[2].parse().unwrap()),
         _ => {
             eprintln!("usage: circ-conf rc-random --seed N --n N --threads N --ops N --vocab V --out FILE");
             std::process::exit(2);
